@@ -420,11 +420,11 @@ def translate(path):
     if len(d2s) != 1 or norm_dump(d2s[0].body) != _expect_body('dtype_to_str'):
         wrappers_ok = False
         notes.append('dtype_to_str differs from the modelled statement list')
-    if not wrappers_ok:
-        raise TranslationError('; '.join(notes))
+    # a wrapper that no longer has the modelled statement list does not abort the translation: it makes
+    # gen_wrappers_ok false, i.e. exactly the obligation gen_wrappers_unchanged fails
     digest = hashlib.sha256(json.dumps([table, ufunc, ops], sort_keys=True).encode()).hexdigest()[:16]
     return {'table': table, 'ufunc': ufunc, 'ops': ops, 'wrappers_ok': wrappers_ok, 'digest': digest,
-            'source': path}
+            'source': path, 'notes': notes}
 
 
 def emit(tr):
@@ -448,6 +448,8 @@ def emit(tr):
     L.append(';\n'.join('  (%s, %s, %s)' % x for x in tr['ops']))
     L.append('].')
     L.append('')
+    for n in tr.get('notes', []):
+        L.append('(* %s *)' % n.replace('*)', '* )'))
     L.append('Definition gen_wrappers_ok : bool := %s.' % ('true' if tr['wrappers_ok'] else 'false'))
     return '\n'.join(L) + '\n'
 
